@@ -37,7 +37,7 @@ def search(payload):
     deep = payload.get("deep") or payload["tier"] == "thorough"
     preds = g.grid_false(payload["tier"]) + g.search_extra("false")
     n_values = 60 if deep else 25
-    fails, known_hits, n = [], [], 0
+    fails, known_hits, n, timeouts = [], [], 0, 0
     for seed in range(3 if deep else 1):
         for p in preds:
             random.seed(int(payload["seed"]) * 7919 + seed * 131 + len(repr(p)))
@@ -45,6 +45,10 @@ def search(payload):
                 vals, err = g.take(GENF(p), n_values)
             except ValueError:
                 continue
+            if err == "timeout":            # a stream that does not deliver is C11's business: do not wait for every one of them
+                timeouts += 1
+                if timeouts >= 3:
+                    break
             for i, v in enumerate(vals):
                 n += 1
                 k, r = call(p, v)
@@ -55,15 +59,21 @@ def search(payload):
                     else:
                         fails.append(rec)
                     break
+        if timeouts >= 3:
+            break
     # short str / extreme bounds: the bound itself is a rare draw, so these streams are read far (cheap: no collections)
     from predicate.standard_predicates import gt_p
     for p in (ge_p("a"), ge_p("b"), gt_p(""), gt_p("a"), ge_p("A"), ge_p("0")):
         for seed in range(2):
             random.seed(int(payload["seed"]) * 104729 + seed)
+            if timeouts >= 3:
+                break
             try:
                 vals, err = g.take(GENF(p), 6000 if deep else 3000, seconds=60.0)
             except (ValueError, TypeError):
                 continue
+            if err == "timeout":
+                timeouts += 1
             for i, v in enumerate(vals):
                 n += 1
                 k, r = call(p, v)
